@@ -1060,6 +1060,7 @@ def inlined(fn, repo, ci=None, rel=None, depth=2, keep=frozenset()):
     f.body = _norm_body(f.body)
     res.set_local_defs(f)
     f.body = _inline_block(f.body, res, depth, (fn.name,))
+    f = fold_class_literals(f, repo, ci)                   # named class-level numbers (also those the inlined helpers read) are the numbers
     _drop_dead_local_defs(f, res)
     f.body = _merge_tail_returns(f.body)
     f.body = _norm_body(f.body)
@@ -1564,6 +1565,90 @@ def _small(e) -> bool:
 
 
 # ----------------------------------------------------------------------------------------------------------------- views
+_CLASS_LITS: Dict[Tuple[int, str], Dict[str, object]] = {}
+
+
+def class_literals(repo, ci) -> Dict[str, object]:
+    """NAME -> number for the class-level attributes of ci (own or inherited) that are bound to a number literal, never stored on instances or on the class by
+    any function of the hierarchy (ancestors and subclasses), and not re-defined by a subclass: reading `self.NAME` / `Class.NAME` is reading the number"""
+    if repo is None or ci is None or not hasattr(ci, "mro"):
+        return {}
+    k = (id(repo), ci.qual)
+    if k in _CLASS_LITS:
+        return _CLASS_LITS[k]
+    lits: Dict[str, object] = {}
+    for c in ci.mro():
+        for name, v in getattr(c, "class_attrs", {}).items():
+            if name in lits:
+                continue
+            val = None
+            if isinstance(v, ast.Constant) and isinstance(v.value, (int, float)) and not isinstance(v.value, bool):
+                val = v.value
+            elif isinstance(v, ast.UnaryOp) and isinstance(v.op, ast.USub) and isinstance(v.operand, ast.Constant) \
+                    and isinstance(v.operand.value, (int, float)) and not isinstance(v.operand.value, bool):
+                val = -v.operand.value
+            if val is not None:
+                lits[name] = val
+    if lits:
+        family = list(ci.mro())
+        try:
+            subs = repo.subclasses(ci)
+        except Exception:
+            subs = []
+        for sc in subs:
+            for name in list(lits):
+                if name in getattr(sc, "class_attrs", {}):
+                    del lits[name]
+        family += subs
+        for c in family:
+            for _, _, f in c.all_functions():
+                for n in ast.walk(f):
+                    tg = n.targets if isinstance(n, ast.Assign) else ([n.target] if isinstance(n, (ast.AugAssign, ast.AnnAssign)) else [])
+                    for t in tg:
+                        for x in ast.walk(t):
+                            if isinstance(x, ast.Attribute) and isinstance(x.ctx, ast.Store) and x.attr in lits:
+                                del lits[x.attr]
+                    if isinstance(n, ast.Call) and isinstance(n.func, ast.Name) and n.func.id == "setattr" and len(n.args) >= 2:
+                        a1 = n.args[1]
+                        if not isinstance(a1, ast.Constant):
+                            lits.clear()           # a computed attribute name may be any of them
+                        elif a1.value in lits:
+                            del lits[a1.value]
+    _CLASS_LITS[k] = lits
+    return lits
+
+
+def fold_class_literals(fn, repo, ci):
+    """`self.NAME` / `type(self).NAME` / `Class.NAME` with NAME one of class_literals(ci) replaced by the number (fn itself when there is nothing to fold)"""
+    lits = class_literals(repo, ci)
+    if not lits:
+        return fn
+    names = {c.name for c in ci.mro()} | {"self", "type(self)", "self.__class__"}
+    hit = [n for n in ast.walk(fn) if isinstance(n, ast.Attribute) and isinstance(n.ctx, ast.Load) and n.attr in lits and path_of_or_call(n.value) in names]
+    if not hit:
+        return fn
+
+    class T(ast.NodeTransformer):
+        def visit_Attribute(self, n):
+            self.generic_visit(n)
+            if isinstance(n.ctx, ast.Load) and n.attr in lits and path_of_or_call(n.value) in names:
+                v = lits[n.attr]
+                new = ast.UnaryOp(op=ast.USub(), operand=ast.Constant(-v)) if v < 0 else ast.Constant(v)
+                return ast.copy_location(new, n)
+            return n
+    out = T().visit(clone(fn))
+    for a in ("_rel",):
+        if hasattr(fn, a):
+            setattr(out, a, getattr(fn, a))
+    return set_parents(ast.fix_missing_locations(out))
+
+
+def path_of_or_call(e) -> Optional[str]:
+    if isinstance(e, ast.Call) and isinstance(e.func, ast.Name) and e.func.id == "type" and len(e.args) == 1 and isinstance(e.args[0], ast.Name):
+        return f"type({e.args[0].id})"
+    return path_of(e)
+
+
 class Views:
     """the views of one function, with helpers to ask whether some view satisfies a predicate"""
 
@@ -1573,7 +1658,7 @@ class Views:
         self.normalise_needle = normaliser is not None
         vs = [fn]
         try:
-            v1 = structural(fn)
+            v1 = structural(fold_class_literals(fn, repo, ci))       # named class-level numbers read as the numbers
             vs.append(v1)
             v2 = inlined(fn, repo, ci, rel) if repo is not None else v1
             if v2 is not v1:
